@@ -928,7 +928,30 @@ def r06_8(ctx, prog, crate):
                   "the trampoline calls the task with %s, expected the thread index it was given" % (el,), c.line())
 
 
+def defer_guard_fires(ctx, rule, prog, crate):
+    """A pooled worker never dies while its channel stays in the pool: the worker loop arms `defer(|| abort())` around the
+    drop of a caught panic payload and relies on the guard firing *during unwinding*. util::defer's Drop therefore calls the
+    closure on its only path, unconditionally (no `thread::panicking()` test) - a disarmed guard lets the worker thread exit,
+    and the next broadcast unwinds out of send() while other workers still run the task on freed state."""
+    from lib.patheval import PathEval
+    b = prog.body("<util::defer::Defer<F> as std::ops::Drop>::drop", crate)
+    if not ctx.anchor(rule, "Drop for util::defer::Defer", 1 if b else 0, 1):
+        return
+    ctx.saw(b)
+    sums = PathEval(b).run()
+    ok = bool(sums) and len(sums) == 1 and not sums[0].conds and \
+        any(c[0].rsplit("::", 1)[-1] in ("call_once", "call_mut", "call") for c in sums[0].calls)
+    ctx.check(ok, rule, ["Defer::drop", "calls-the-closure-unconditionally"],
+              "util::defer's guard does not call its closure on every drop (%s paths, conditions %s): a guard that must fire while "
+              "unwinding is disarmed" % (len(sums) if sums else "?", [str(c[0])[:50] for s_ in (sums or []) for c in s_.conds][:3]), b.where(0))
+
+
+def r06_10(ctx, prog, crate):
+    defer_guard_fires(ctx, "R06.10", prog, crate)
+
+
 def run(ctx, prog, crate):
+    r06_10(ctx, prog, crate)
     r06_8(ctx, prog, crate)
     r06_9(ctx, prog, crate)
     r06_1(ctx, prog, crate)
